@@ -177,6 +177,40 @@ def build(repo=None):
     for lp in [x for x in ast.walk(fn) if isinstance(x, ast.For)]:
         eng.loop_specs[id(lp)] = loop_handler
 
+    def m_extend(e, s, recv, args, kw, nd):
+        # pieces.extend(<piece> for name, value in <mapping>.items()): the same contract as the loop, cut at an arbitrary item
+        if not (isinstance(recv, Ref) and isinstance(s.get(recv), ListObj) and len(args) == 1 and isinstance(args[0], Fn) and isinstance(args[0].node, ast.GeneratorExp)):
+            return None
+        g = args[0].node
+        if len(g.generators) != 1 or g.generators[0].ifs or g.generators[0].is_async:
+            raise Unsupported("shape_str: generator shape in extend()")
+        gen = g.generators[0]
+        outs = []
+        s_c = s.clone()
+        s_c.env = dict(args[0].closure or s.env)
+        for s1, it in e.ev(gen.iter, s_c):
+            if not (isinstance(it, Opaque) and it.tag.startswith("items-of:")):
+                raise Unsupported("shape_str: extend() iterates over something else than <mapping>.items()")
+            tag = it.tag[len("items-of:"):]
+            src = Opaque(tag, it.t)
+            s2 = s1.clone()
+            s2.pc += [0 <= i, i < Len(src.t)]
+            s2.path.append(f"extend-over-{tag}:item-i")
+            key = Z("str", KeyF(src.t, i))
+            val = Z("int", ValI(src.t, i)) if tag == "filtered:memo:sigma" else Opaque("item-value", ValF(src.t, i)) if tag != "memo:nu" else item_value(src)
+            s2.env = dict(s2.env)
+            bind_target(s2, gen.target, key, val)
+            for s3, pv in e.ev(g.elt, s2):
+                want = z3.Concat(KeyF(src.t, i), z3.StringVal("="), fmt_term(e, s3, val)) if not isinstance(val, Tup) else None
+                e.oblige(s3, "C13:shape_str:each-binding-yields-exactly-one-piece-name=value", (pv.t == want) if isinstance(pv, Z) and pv.kind == "str" and want is not None else z3.BoolVal(False), item=i)
+            s9 = s.clone()
+            s9.put(recv, ListObj(list(s.get(recv).items) + [Opaque("all-pieces-of:" + tag)]))
+            s9.path.append(f"extend-over-{tag}:done")
+            outs.append((s9, NONE))
+        return outs
+
+    eng.method_models["extend"] = m_extend
+
     def m_join(e, s, recv, args, kw, nd):
         if isinstance(recv, Z) and recv.kind == "str" and len(args) == 1 and isinstance(args[0], Ref) and isinstance(s.get(args[0]), ListObj):
             s1 = s.clone()
